@@ -27,6 +27,7 @@ LEVEL_TEXT = (
     "directory of every generated tree used as module_path the stated equivalences held. Seeded random trees (depth <= 5, prefix-sibling names)."
 )
 LEVEL_NOTE = "Trusts R-SCAN's directory walk (os/pathlib) and the raw networkx graph; x.py beside x/, dotted directory names and a directory named like the root are not generated."
+LEVEL_TEXT += ' Scans with several excluded sibling directories below one parent are included.'
 RULE = (
     "an evaluation = one scan (tree x module_path x entry point) judged by the monitor; non-trivial = module_path differs from root_path "
     "or the tree has prefix-sibling names or >= 3 directory levels; distinct = distinct (tree digest, module_path, entry point)"
